@@ -255,7 +255,7 @@ func c09DecSegs(b []byte) ([]c09Seg, error) {
 	return out, nil
 }
 
-var c09Prefix4 = []byte{24, 10, 10, 0}             // 10.10.0.0/24
+var c09Prefix4 = []byte{24, 10, 10, 0}                 // 10.10.0.0/24
 var c09Prefix6 = []byte{48, 0x20, 1, 0x0d, 0xb8, 0, 1} // 2001:db8:1::/48
 
 func (c c09Case) clusterList() [][4]byte {
@@ -833,59 +833,92 @@ func c09Build(c c09Case) *c09Stored {
 	return st
 }
 
+// snapshots are raw bytes (compared with bytes.Equal, printed as hex only on a mismatch)
+
 func c09SerAttr(sb *bytes.Buffer, a bgp.PathAttributeInterface) {
 	if a == nil {
-		sb.WriteString("<nil>")
+		sb.WriteByte(0xFE)
 		return
 	}
 	b, err := a.Serialize()
 	if err != nil {
-		fmt.Fprintf(sb, "ERR(%v)", err)
+		sb.WriteString("ERR:" + err.Error())
 		return
 	}
-	sb.WriteString(hex.EncodeToString(b))
+	sb.Write(b)
+	sb.WriteByte('|')
 }
 
 // c09SnapChain serialises a path object and its ancestors down to (excluding) stop: own attribute slices at
 // full capacity, deletions at full capacity, flags.
 func c09SnapChain(sb *bytes.Buffer, p, stop *Path) {
 	for q := p; q != nil && q != stop; q = q.parent {
-		fmt.Fprintf(sb, "[wd=%v len=%d:", q.IsWithdraw, len(q.pathAttrs))
+		sb.WriteByte('[')
+		sb.WriteByte(c09b(q.IsWithdraw))
+		sb.WriteByte(byte(len(q.pathAttrs)))
 		full := q.pathAttrs[:cap(q.pathAttrs)]
 		for _, a := range full {
 			c09SerAttr(sb, a)
-			sb.WriteByte(',')
 		}
-		fmt.Fprintf(sb, " dels=%v/%v]", q.dels, q.dels[:cap(q.dels)])
+		sb.WriteByte('d')
+		sb.WriteByte(byte(len(q.dels)))
+		for _, t := range q.dels[:cap(q.dels)] {
+			sb.WriteByte(byte(t))
+		}
+		sb.WriteByte(']')
 	}
 }
 
-func (st *c09Stored) snap() string {
+func (st *c09Stored) snap() []byte {
 	var sb bytes.Buffer
+	sb.Grow(512)
 	c09SnapChain(&sb, st.path, nil)
+	var w [4]byte
 	for _, l := range st.asLsts {
-		fmt.Fprintf(&sb, "as%v", l[:cap(l)])
+		for _, v := range l[:cap(l)] {
+			binary.BigEndian.PutUint32(w[:], v)
+			sb.Write(w[:])
+		}
+		sb.WriteByte('/')
 	}
-	fmt.Fprintf(&sb, "cl%v comm%v", st.cl[:cap(st.cl)], st.comm[:cap(st.comm)])
+	for _, a := range st.cl[:cap(st.cl)] {
+		if a.IsValid() {
+			sb.Write(a.AsSlice())
+		} else {
+			sb.WriteByte('-')
+		}
+	}
+	for _, v := range st.comm[:cap(st.comm)] {
+		binary.BigEndian.PutUint32(w[:], v)
+		sb.Write(w[:])
+	}
 	for _, u := range st.unk {
-		fmt.Fprintf(&sb, "u%x", u[:cap(u)])
+		sb.Write(u[:cap(u)])
 	}
 	// what a reader of the stored route sees
+	sb.WriteByte('R')
 	for _, a := range st.path.GetPathAttrs() {
 		c09SerAttr(&sb, a)
-		sb.WriteByte(';')
 	}
-	return sb.String()
+	return sb.Bytes()
 }
 
-func c09SnapCopy(cp, stored *Path) string {
+func c09SnapCopy(cp, stored *Path) []byte {
 	var sb bytes.Buffer
+	sb.Grow(512)
 	c09SnapChain(&sb, cp, stored)
+	sb.WriteByte('R')
 	for _, a := range cp.GetPathAttrs() {
 		c09SerAttr(&sb, a)
-		sb.WriteByte(';')
 	}
-	return sb.String()
+	return sb.Bytes()
+}
+
+func c09Hex(b []byte) string {
+	if len(b) > 600 {
+		return hex.EncodeToString(b[:300]) + "..." + hex.EncodeToString(b[len(b)-300:])
+	}
+	return hex.EncodeToString(b)
 }
 
 // c09Observe reads the copy the way the UPDATE builder does (GetPathAttrs, Serialize) and frames the bytes
@@ -1035,17 +1068,16 @@ func c09SrcClass(c c09Case) string {
 }
 
 type c09Ctx struct {
-	r   *vr.Report
-	c   c09Case
-	tag string // "" for the first copy, ":second-copy" when produced after another peer's copy
+	r *vr.Report
+	c c09Case
 }
 
 func (x c09Ctx) viol(key, format string, a ...any) {
-	x.r.Violationf("C09:attrs:"+key+x.tag, x.c, "%s: %s", x.c, fmt.Sprintf(format, a...))
+	x.r.Violationf("C09:attrs:"+key, x.c, "%s: %s", x.c, fmt.Sprintf(format, a...))
 }
 
 // c09Compare applies the rule table to the observed copy. Returns the number of clauses applied.
-func c09Compare(x c09Ctx, in map[uint8]c09Attr, obs []c09Attr, samePointer bool) {
+func c09Compare(x c09Ctx, in map[uint8]c09Attr, obs []c09Attr) {
 	c, r := x.c, x.r
 	tgt := "tgt=" + c09TgtNames[c.Tgt]
 	d := c09Ref(c, in)
@@ -1071,7 +1103,6 @@ func c09Compare(x c09Ctx, in map[uint8]c09Attr, obs []c09Attr, samePointer bool)
 		}
 		return
 	}
-	_ = samePointer
 	// generic rules
 	types := map[uint8]bool{}
 	for t := range in {
@@ -1103,6 +1134,17 @@ func c09Compare(x c09Ctx, in map[uint8]c09Attr, obs []c09Attr, samePointer bool)
 			srcTag = ":src=" + c09SrcNames[c.Src]
 		}
 		key := name + ":" + tgt + srcTag
+		sfx := func(s string) string { return s }
+		if t == c09tOrigID || t == c09tCL {
+			// ORIGINATOR_ID and CLUSTER_LIST are one mechanism (RFC 4456 8): one key per (target, source) and direction of the error
+			key = "rr-attributes:" + tgt + srcTag
+			sfx = func(s string) string {
+				if s == ":dropped" || s == ":missing" {
+					return ":not-sent"
+				}
+				return s
+			}
+		}
 		switch rule.Mode {
 		case c09Any:
 			r.Outcome(fmt.Sprintf("%s:%s:unspecified(sent=%v)", tgt, name, have))
@@ -1111,7 +1153,7 @@ func c09Compare(x c09Ctx, in map[uint8]c09Attr, obs []c09Attr, samePointer bool)
 				r.Outcome(tgt + ":" + name + ":removed")
 			}
 			if have {
-				x.viol(key+":not-removed", "%s — but the copy carries %s=%x", rule.Clause, name, g.Val)
+				x.viol(key+sfx(":not-removed"), "%s — but the copy carries %s=%x", rule.Clause, name, g.Val)
 			}
 		case c09Same, c09SameOrAbsent:
 			if rule.Mode == c09SameOrAbsent && !have {
@@ -1129,16 +1171,16 @@ func c09Compare(x c09Ctx, in map[uint8]c09Attr, obs []c09Attr, samePointer bool)
 			}
 			switch {
 			case had && !have:
-				x.viol(key+":dropped", "%s — but %s is missing from the copy (stored %x)", rule.Clause, name, i.Val)
+				x.viol(key+sfx(":dropped"), "%s — but %s is missing from the copy (stored %x)", rule.Clause, name, i.Val)
 			case !had && have:
-				x.viol(key+":invented", "%s — but the copy carries %s=%x which the stored route does not have", rule.Clause, name, g.Val)
+				x.viol(key+sfx(":invented"), "%s — but the copy carries %s=%x which the stored route does not have", rule.Clause, name, g.Val)
 			case had && (!bytes.Equal(g.Val, i.Val) || g.Flags&fm != i.Flags&fm):
-				x.viol(key+":changed", "%s — stored %02x/%x, copy %02x/%x", rule.Clause, i.Flags, i.Val, g.Flags, g.Val)
+				x.viol(key+sfx(":changed"), "%s — stored %02x/%x, copy %02x/%x", rule.Clause, i.Flags, i.Val, g.Flags, g.Val)
 			}
 		case c09OneOf:
 			r.Outcome(tgt + ":" + name + ":set")
 			if !have {
-				x.viol(key+":missing", "%s — want %x, the copy has no %s", rule.Clause, rule.Vals, name)
+				x.viol(key+sfx(":missing"), "%s — want %x, the copy has no %s", rule.Clause, rule.Vals, name)
 				break
 			}
 			okv := false
@@ -1148,9 +1190,9 @@ func c09Compare(x c09Ctx, in map[uint8]c09Attr, obs []c09Attr, samePointer bool)
 				}
 			}
 			if !okv {
-				x.viol(key+":wrong-value", "%s — want one of %x, copy has %x", rule.Clause, rule.Vals, g.Val)
+				x.viol(key+sfx(":wrong-value"), "%s — want one of %x, copy has %x", rule.Clause, rule.Vals, g.Val)
 			} else if g.Flags&0xC0 != rule.Flags {
-				x.viol(key+":wrong-flags", "%s — flags %02x, want %02x", rule.Clause, g.Flags, rule.Flags)
+				x.viol(key+sfx(":wrong-flags"), "%s — flags %02x, want %02x", rule.Clause, g.Flags, rule.Flags)
 			}
 		}
 	}
@@ -1251,35 +1293,29 @@ func c09Compare(x c09Ctx, in map[uint8]c09Attr, obs []c09Attr, samePointer bool)
 	}
 }
 
-// second targets of the independence check, with the options carried over where the configuration allows
-func c09SecondTargets(c c09Case) []c09Case {
-	var out []c09Case
-	for t := 0; t < 5; t++ {
-		if t == c09TgtConfed && c.G == 0 {
-			continue
-		}
-		d := c
-		d.Tgt = t
-		if t == c09TgtIBGP || t == c09TgtClient {
-			d.RPA = 0
-		}
-		out = append(out, d)
-	}
-	return out
-}
-
 func c09TargetOf(c c09Case) *PeerInfo {
 	return c09Targets[c09TgtKey{c.G, c.Tgt, c.RPA, c.LAS, c.Sess}]
 }
 
-// c09CheckBase: one stored route, first copy for c.Tgt, then a second copy for every target kind.
-func c09CheckBase(r *vr.Report, c c09Case, pairs bool) {
+func c09AttrBytes(p *Path) []byte {
+	var sb bytes.Buffer
+	for _, a := range p.GetPathAttrs() {
+		c09SerAttr(&sb, a)
+	}
+	return sb.Bytes()
+}
+
+// c09Fresh: one stored route, one copy for c.Tgt, compared with the rule table; the stored route must be
+// byte-identical afterwards. Returns the serialised copy (nil when there is none).
+func c09Fresh(r *vr.Report, c c09Case, judge bool) []byte {
 	in := c09PlainAttrs(c)
 	st := c09Build(c)
-	// the builder and the plain encoding must describe the same route (engine self-check)
-	if obs, err := c09Observe(st.path); err != nil {
-		panic("C09 engine: stored route does not serialise: " + err.Error())
-	} else {
+	if judge {
+		// the builder and the plain encoding must describe the same route (engine self-check)
+		obs, err := c09Observe(st.path)
+		if err != nil {
+			panic("C09 engine: stored route does not serialise: " + err.Error())
+		}
 		if len(obs) != len(in) {
 			panic(fmt.Sprintf("C09 engine: builder/plain mismatch for %s: %d vs %d attrs", c, len(obs), len(in)))
 		}
@@ -1290,21 +1326,22 @@ func c09CheckBase(r *vr.Report, c c09Case, pairs bool) {
 		}
 	}
 	snap0 := st.snap()
-	gl := c09Globals[c.G]
 	r.Eval()
-	A, pan := c09Call(gl, c09TargetOf(c), st.path)
+	A, pan := c09Call(c09Globals[c.G], c09TargetOf(c), st.path)
 	if pan != "" {
 		r.Violationf("C09:attrs:panic:"+pan[strings.LastIndex(pan, " at ")+4:], c, "%s: UpdatePathAttrs panicked: %s", c, pan)
-		return
+		return nil
 	}
 	if A == nil {
 		r.Violationf("C09:attrs:nil-result:tgt="+c09TgtNames[c.Tgt], c, "%s: UpdatePathAttrs returned nil", c)
-		return
+		return nil
 	}
 	x := c09Ctx{r: r, c: c}
-	if s := st.snap(); s != snap0 {
-		x.viol("stored-route-altered:tgt="+c09TgtNames[c.Tgt], "producing the copy altered the stored route:\n before %s\n after  %s", snap0, s)
-		snap0 = s
+	if s := st.snap(); !bytes.Equal(s, snap0) {
+		x.viol("stored-route-altered:tgt="+c09TgtNames[c.Tgt], "producing the copy altered the stored route:\n before %s\n after  %s", c09Hex(snap0), c09Hex(s))
+	}
+	if !judge {
+		return c09AttrBytes(A)
 	}
 	if A.IsWithdraw != st.path.IsWithdraw || A.GetFamily() != st.path.GetFamily() || A.GetSource() != st.path.GetSource() || A.GetNlri() != st.path.GetNlri() {
 		x.viol("copy-identity:tgt="+c09TgtNames[c.Tgt], "copy differs from the stored route in withdraw flag / family / source / NLRI")
@@ -1312,40 +1349,89 @@ func c09CheckBase(r *vr.Report, c c09Case, pairs bool) {
 	obs, err := c09Observe(A)
 	if err != nil {
 		x.viol("copy-does-not-serialise:tgt="+c09TgtNames[c.Tgt], "%v", err)
-		return
+		return nil
 	}
-	c09Compare(x, in, obs, A == st.path)
+	c09Compare(x, in, obs)
 	r.NT(c.key())
-	if !pairs {
-		return
+	return c09AttrBytes(A)
+}
+
+// c09Group: all target kinds of one (world, source, options, route). Every target gets a copy of a fresh
+// stored route (judged by the rule table); then, on ONE stored route, the copies for all targets are
+// produced one after the other, forwards and backwards: after each production the stored route and all
+// copies produced earlier must be byte-identical to their snapshots, and the new copy must equal the copy
+// the same target gets from a fresh route (so every ordered pair "A first, then B" is covered).
+func c09Group(r *vr.Report, g c09Case, sequences bool) {
+	var members []c09Case
+	for t := 0; t < 5; t++ {
+		if t == c09TgtConfed && g.G == 0 {
+			continue
+		}
+		d := g
+		d.Tgt = t
+		if t == c09TgtIBGP || t == c09TgtClient {
+			d.RPA = 0
+		}
+		members = append(members, d)
 	}
-	snapA := c09SnapCopy(A, st.path)
-	for _, c2 := range c09SecondTargets(c) {
-		r.Eval()
-		B, pan := c09Call(gl, c09TargetOf(c2), st.path)
-		if pan != "" {
-			r.Violationf("C09:attrs:panic:"+pan[strings.LastIndex(pan, " at ")+4:], c2, "%s: UpdatePathAttrs (second copy) panicked: %s", c2, pan)
-			continue
+	fresh := make([][]byte, len(members))
+	for i, m := range members {
+		// an iBGP-type member does not depend on the group's remove-private-as value: judged once (in the rpa=0 group)
+		judge := m.RPA == g.RPA
+		fresh[i] = c09Fresh(r, m, judge)
+	}
+	for dir := 0; dir < 2 && sequences; dir++ {
+		st := c09Build(g)
+		snap0 := st.snap()
+		type made struct {
+			i    int
+			p    *Path
+			snap []byte
 		}
-		pair := fmt.Sprintf("first=%s:second=%s", c09TgtNames[c.Tgt], c09TgtNames[c2.Tgt])
-		if s := st.snap(); s != snap0 {
-			x.viol("stored-route-altered:second-copy:"+pair, "producing a second copy (for %s) altered the stored route:\n before %s\n after  %s", c09TgtNames[c2.Tgt], snap0, s)
-			snap0 = s
-		}
-		if A != st.path {
-			if s := c09SnapCopy(A, st.path); s != snapA {
-				x.viol("copies-influence-each-other:"+pair, "the copy for %s changed when the copy for %s was produced:\n before %s\n after  %s",
-					c09TgtNames[c.Tgt], c09TgtNames[c2.Tgt], snapA, s)
-				snapA = s
+		var done []made
+		for n := 0; n < len(members); n++ {
+			i := n
+			if dir == 1 {
+				i = len(members) - 1 - n
 			}
+			m := members[i]
+			r.Eval()
+			B, pan := c09Call(c09Globals[m.G], c09TargetOf(m), st.path)
+			if pan != "" {
+				r.Violationf("C09:attrs:panic:"+pan[strings.LastIndex(pan, " at ")+4:], m, "%s: UpdatePathAttrs (copy number %d from one stored route) panicked: %s", m, n+1, pan)
+				continue
+			}
+			if B == nil || fresh[i] == nil {
+				continue
+			}
+			x := c09Ctx{r: r, c: m}
+			if s := st.snap(); !bytes.Equal(s, snap0) {
+				x.viol("stored-route-altered:tgt="+c09TgtNames[m.Tgt]+":after-other-copies", "producing copy number %d (for %s) altered the stored route:\n before %s\n after  %s",
+					n+1, c09TgtNames[m.Tgt], c09Hex(snap0), c09Hex(s))
+				snap0 = s
+			}
+			for k := range done {
+				e := &done[k]
+				if e.p == st.path {
+					continue // route-server client: the stored route itself, covered by snap0
+				}
+				if s := c09SnapCopy(e.p, st.path); !bytes.Equal(s, e.snap) {
+					x.viol(fmt.Sprintf("copies-influence-each-other:first=%s:second=%s", c09TgtNames[members[e.i].Tgt], c09TgtNames[m.Tgt]),
+						"the copy made for %s changed when the copy for %s was produced:\n before %s\n after  %s",
+						c09TgtNames[members[e.i].Tgt], c09TgtNames[m.Tgt], c09Hex(e.snap), c09Hex(s))
+					e.snap = s
+				}
+			}
+			if b := c09AttrBytes(B); !bytes.Equal(b, fresh[i]) {
+				x.viol(fmt.Sprintf("copy-depends-on-earlier-copies:tgt=%s", c09TgtNames[m.Tgt]),
+					"the copy for %s produced after %d other copies differs from the copy produced from a fresh route:\n fresh %s\n now   %s",
+					c09TgtNames[m.Tgt], n, c09Hex(fresh[i]), c09Hex(b))
+			}
+			if n > 0 {
+				r.Outcome("independence:copy-after-" + c09TgtNames[members[done[len(done)-1].i].Tgt] + ":" + c09TgtNames[m.Tgt])
+			}
+			done = append(done, made{i, B, c09SnapCopy(B, st.path)})
 		}
-		obsB, err := c09Observe(B)
-		if err != nil {
-			x.viol("copy-does-not-serialise:tgt="+c09TgtNames[c2.Tgt], "%v", err)
-			continue
-		}
-		c09Compare(c09Ctx{r: r, c: c2, tag: ":second-copy"}, in, obsB, B == st.path)
-		r.Outcome("independence:" + pair)
 	}
 }
 
@@ -1353,8 +1439,8 @@ func c09CheckBase(r *vr.Report, c c09Case, pairs bool) {
 // enumeration
 
 type c09Combo struct {
-	G, Src, Tgt, RPA int
-	LAS              bool
+	G, Src, RPA int
+	LAS         bool
 }
 
 func c09Combos() []c09Combo {
@@ -1364,17 +1450,9 @@ func c09Combos() []c09Combo {
 			if s == c09SrcConfed && g == 0 {
 				continue
 			}
-			for t := 0; t < 5; t++ {
-				if t == c09TgtConfed && g == 0 {
-					continue
-				}
-				for rpa := 0; rpa < 3; rpa++ {
-					if rpa != 0 && (t == c09TgtIBGP || t == c09TgtClient) {
-						continue
-					}
-					for las := 0; las < 2; las++ {
-						out = append(out, c09Combo{g, s, t, rpa, las == 1})
-					}
+			for rpa := 0; rpa < 3; rpa++ {
+				for las := 0; las < 2; las++ {
+					out = append(out, c09Combo{g, s, rpa, las == 1})
 				}
 			}
 		}
@@ -1407,16 +1485,17 @@ func c09AttrSets(utVals int) []c09AttrSet {
 }
 
 func c09Make(co c09Combo, shape int, a c09AttrSet, nh, sess, chain int, wd bool) c09Case {
-	return c09Case{G: co.G, Src: co.Src, Tgt: co.Tgt, RPA: co.RPA, LAS: co.LAS, Path: shape, LP: a.LP, MED: a.MED, Orig: a.Orig, CL: a.CL,
+	return c09Case{G: co.G, Src: co.Src, Tgt: 0, RPA: co.RPA, LAS: co.LAS, Path: shape, LP: a.LP, MED: a.MED, Orig: a.Orig, CL: a.CL,
 		UT: a.UT, UNT: a.UNT, Comm: a.Comm, NH: nh, Sess: sess, Chain: chain, Wd: wd}
 }
 
 func TestVerif_C09_Attrs(t *testing.T) {
 	r := vr.Start(t, "C09", "attrs")
 	defer r.Finish()
-	r.Rule = "full product (world, source kind, target kind, remove-private-as, local-as override) x AS_PATH shape x attribute subset x next hop, " +
-		"on a root stored route over a v4 session; plus the same product with a reduced attribute-subset factor over {v6 session, stored route = clone with overrides and deletions, withdrawal}; " +
-		"for every case a second copy is produced for every target kind (independence). Non-trivial = distinct case for which UpdatePathAttrs returned a copy that was serialised and compared clause by clause with the rule table"
+	r.Rule = "groups = (world, source kind, remove-private-as, local-as override) x AS_PATH shape x attribute subset x next hop, each expanded to every target kind of the world " +
+		"(root stored route, v4 session: full attribute-subset factor; {v6 session, stored route = clone with overrides and deletions, withdrawal}: reduced attribute factor in the quick tier); " +
+		"per target one copy from a fresh stored route is compared clause by clause with the rule table, then all targets' copies are produced from one stored route forwards and backwards (aliasing / independence). " +
+		"Non-trivial = distinct (case, target) for which UpdatePathAttrs returned a copy that was serialised, decoded by the harness and judged by the rule table"
 	if err := c09Init(); err != nil {
 		t.Fatalf("ENGINE-ERROR C09 init: %v", err)
 	}
@@ -1425,7 +1504,8 @@ func TestVerif_C09_Attrs(t *testing.T) {
 		if err := r.LoadReplay(&c); err != nil {
 			t.Fatal(err)
 		}
-		c09CheckBase(r, c, true)
+		c09Fresh(r, c, true)
+		c09Group(r, c, true)
 		return
 	}
 	thorough := vr.Thorough()
@@ -1453,6 +1533,10 @@ func TestVerif_C09_Attrs(t *testing.T) {
 			{LP: true}, {MED: true}, {Orig: 2}, {CL: 1}, {UT: 1}, {UNT: true}, {Comm: true},
 		}
 	}
+	inReduced := map[c09AttrSet]bool{}
+	for _, a := range reduced {
+		inReduced[a] = true
+	}
 	type sec struct {
 		sess, chain int
 		wd          bool
@@ -1461,17 +1545,20 @@ func TestVerif_C09_Attrs(t *testing.T) {
 	r.Bounds["worlds"] = "plain AS 100; confederation 100 with member-AS 65100 (members 65101, 65102)"
 	r.Bounds["source_kinds"] = c09SrcNames
 	r.Bounds["target_kinds"] = c09TgtNames
-	r.Bounds["combos(world,src,tgt,rpa,local-as)"] = len(combos)
+	r.Bounds["combos(world,src,rpa,local-as)"] = len(combos)
 	r.Bounds["aspath_shapes"] = len(shapes)
 	r.Bounds["attribute_subsets"] = len(sets)
 	r.Bounds["next_hops"] = len(nhs)
 	r.Bounds["secondary_sweep"] = fmt.Sprintf("%d (session,chain,withdraw) settings x %d attribute sets", len(secondary), len(reduced))
-	r.Bounds["second_copy_targets"] = "every target kind of the world"
+	r.Bounds["copy_orders_per_stored_route"] = "all target kinds forwards and backwards"
+	if !thorough {
+		r.Bounds["copy_orders_applied_to"] = fmt.Sprintf("the %d reduced attribute sets of the primary product and the whole secondary sweep (thorough: everything)", len(reduced))
+	}
 	r.Bounds["constraint"] = "remove-private-as only on eBGP-type targets (configuration refuses it on iBGP); confed kinds only in the confederation world"
 	W := vr.Workers()
 	primary := len(combos) * len(shapes) * len(sets) * len(nhs)
 	second := len(combos) * len(shapes) * len(reduced) * len(nhs) * len(secondary)
-	r.Extra["base_cases"] = primary + second
+	r.Extra["groups"] = primary + second
 	r.Parallel(W, func(w int, c *vr.Report) {
 		for i := w; i < primary; i += W {
 			k := i
@@ -1482,7 +1569,7 @@ func TestVerif_C09_Attrs(t *testing.T) {
 			sh := shapes[k%len(shapes)]
 			k /= len(shapes)
 			cs := c09Make(combos[k], sh, a, nh, 0, 0, false)
-			c09CheckBase(c, cs, true)
+			c09Group(c, cs, thorough || inReduced[a])
 			if c.WantSample() && i%100003 == 17 {
 				c.Sample(cs)
 			}
@@ -1500,7 +1587,7 @@ func TestVerif_C09_Attrs(t *testing.T) {
 			sh := shapes[k%len(shapes)]
 			k /= len(shapes)
 			cs := c09Make(combos[k], sh, a, nh, se.sess, se.chain, se.wd)
-			c09CheckBase(c, cs, true)
+			c09Group(c, cs, true)
 			if c.WantSample() && i%50021 == 11 {
 				c.Sample(cs)
 			}
